@@ -322,4 +322,161 @@ theorem accsDocW_safe (fixed : Bool) (iw : Nat) : ∀ a : Accs, docSafe false (a
     simp [accsDocW, docSafe, docSafe_tokDoc _ .nil docSafe_nil, toDocW_safe fixed iw e, accsDocW_safe fixed iw rest]
 end
 
+/-! ### the policy level -/
+
+theorem wtokAtoms_noLead (t : WTok) : wtokAtoms t = t.leading.map Atom.com ++ wtokAtoms t.noLead := by
+  simp [wtokAtoms, WTok.noLead]
+
+theorem opsAtoms_cons (t : WTok) (ts : List WTok) : opsAtoms (t :: ts) = wtokAtoms t ++ opsAtoms ts := rfl
+
+/-- hoisting the leading comments of the first token does not change the atom sequence -/
+theorem cstAtomsW_clearFirst (kt kc : Bool) : ∀ c : Cst,
+    cstAtomsW kt kc c = (firstLeading c).map Atom.com ++ cstAtomsW kt kc (clearFirstLeading c)
+  | .leaf t => by simp [firstLeading, clearFirstLeading, cstAtomsW, wtokAtoms_noLead t]
+  | .paren l e r => by simp [firstLeading, clearFirstLeading, cstAtomsW, wtokAtoms_noLead l]
+  | .unary [] e => by
+    have := cstAtomsW_clearFirst kt kc e
+    simp [firstLeading, clearFirstLeading, cstAtomsW, opsAtoms]; exact this
+  | .unary (t :: ts) e => by simp [firstLeading, clearFirstLeading, cstAtomsW, opsAtoms, wtokAtoms_noLead t]
+  | .chain k first rest => by
+    have := cstAtomsW_clearFirst kt kc first
+    simp only [firstLeading, clearFirstLeading, cstAtomsW]; rw [this]; simp
+  | .rel a op b => by
+    have := cstAtomsW_clearFirst kt kc a
+    simp only [firstLeading, clearFirstLeading, cstAtomsW]; rw [this]; simp
+  | .isIn a isT ty inT e => by
+    have := cstAtomsW_clearFirst kt kc a
+    simp only [firstLeading, clearFirstLeading, cstAtomsW]; rw [this]; simp
+  | .ite i c t a e b => by simp [firstLeading, clearFirstLeading, cstAtomsW, wtokAtoms_noLead i]
+  | .brack l args r => by simp [firstLeading, clearFirstLeading, cstAtomsW, wtokAtoms_noLead l]
+  | .recInit k colon v => by
+    have := cstAtomsW_clearFirst kt kc k
+    simp only [firstLeading, clearFirstLeading, cstAtomsW]; rw [this]; simp
+  | .member item accs => by
+    have := cstAtomsW_clearFirst kt kc item
+    simp only [firstLeading, clearFirstLeading, cstAtomsW]; rw [this]; simp
+
+theorem docAtoms_hardline : docAtoms Doc.hardline = [] := by simp [docAtoms]
+theorem docAtoms_space : docAtoms Doc.space = [] := by simp [docAtoms]
+
+theorem docAtoms_trailingDoc (t : List Char) (next : Doc) (hn : docAtoms next = []) :
+    docAtoms (trailingDoc t next) = (if t.isEmpty then [] else [Atom.com t]) := by
+  unfold trailingDoc; split <;> simp [docAtoms, hn]
+
+theorem docAtoms_annotDoc (a : AnnotCst) : docAtoms (annotDoc a) = annotAtoms a := by
+  obtain ⟨atT, key, value⟩ := a
+  cases value with
+  | none => simp [annotDoc, annotAtoms, docAtoms, docAtoms_tokDoc _ .nil docAtoms_nil]
+  | some v =>
+    obtain ⟨l, v, r⟩ := v
+    simp [annotDoc, annotAtoms, docAtoms, docAtoms_tokDoc _ .nil docAtoms_nil, docAtoms_tokDoc _ .hardline docAtoms_hardline]
+
+theorem docAtoms_annotsDoc (as : List AnnotCst) : docAtoms (annotsDoc as) = annotsAtoms as := by
+  induction as with
+  | nil => simp [annotsDoc, annotsAtoms, docAtoms]
+  | cons a as ih => simp [annotsDoc, annotsAtoms, docAtoms, docAtoms_annotDoc, ih]
+
+theorem docAtoms_isPartDoc (iw : Nat) (x : Option (WTok × Cst)) :
+    docAtoms (isPartDoc iw x) = (match x with | none => [] | some (isT, ty) => wtokAtoms isT ++ cstAtomsW false true ty) := by
+  cases x with
+  | none => simp [isPartDoc, docAtoms]
+  | some x =>
+    obtain ⟨isT, ty⟩ := x
+    simp [isPartDoc, docAtoms, docAtoms_tokDoc _ .nil docAtoms_nil, docAtoms_addComment _ _ _ _ docAtoms_nil, toDocFixed, toDocW_atoms]
+
+theorem docAtoms_varDefDoc (iw : Nat) (v : VarDefCst) : docAtoms (varDefDoc iw v) = varDefAtomsW false true v := by
+  obtain ⟨var, isPart, ineq⟩ := v
+  cases isPart <;> cases ineq with
+  | none =>
+    simp [varDefDoc, varDefAtomsW, docAtoms, docAtoms_tokDoc _ .nil docAtoms_nil, docAtoms_isPartDoc]
+  | some x =>
+    obtain ⟨op, rhs⟩ := x
+    simp [varDefDoc, varDefAtomsW, docAtoms, docAtoms_tokDoc _ .nil docAtoms_nil, docAtoms_isPartDoc, docAtoms_leadingDoc,
+      docAtoms_trailingDoc _ _ docAtoms_nil, toDocFixed, toDocW_atoms, wtokAtoms]
+
+theorem docAtoms_condDoc (iw : Nat) (c : CondCst) : docAtoms (condDoc iw c) = condAtomsW false true c := by
+  obtain ⟨kw, lb, expr, rb⟩ := c
+  cases expr with
+  | none =>
+    simp [condDoc, condAtomsW, docAtoms, docAtoms_tokDoc _ .nil docAtoms_nil, docAtoms_leadingDoc,
+      docAtoms_trailingDoc _ _ docAtoms_line, docAtoms_addComment _ _ _ _ docAtoms_nil, wtokAtoms]
+  | some e =>
+    simp [condDoc, condAtomsW, docAtoms, docAtoms_tokDoc _ .nil docAtoms_nil, docAtoms_leadingDoc,
+      docAtoms_trailingDoc _ _ docAtoms_line, docAtoms_addComment _ _ _ _ docAtoms_nil, wtokAtoms, toDocFixed, toDocW_atoms,
+      cstAtomsW_clearFirst false true e]
+
+theorem docAtoms_condsDoc (iw : Nat) (cs : List CondCst) : docAtoms (condsDoc iw cs) = condsAtomsW false true cs := by
+  induction cs with
+  | nil => simp [condsDoc, condsAtomsW, docAtoms]
+  | cons c cs ih =>
+    cases cs with
+    | nil => simp [condsDoc, condsAtomsW, docAtoms_condDoc]
+    | cons c' cs' => simp [condsDoc, condsAtomsW, docAtoms, docAtoms_condDoc] at ih ⊢; exact ih
+
+theorem docAtoms_droppedCommaDoc (tc : Option WTok) : docAtoms (droppedCommaDoc tc) = trailingCommaAtoms false true tc := by
+  cases tc with
+  | none => simp [droppedCommaDoc, trailingCommaAtoms, docAtoms_addComment _ _ _ _ docAtoms_nil, docAtoms]
+  | some t => simp [droppedCommaDoc, trailingCommaAtoms, docAtoms_commentsOnlyDoc]
+
+/-- the document of a policy carries the source atoms in source order, minus trailing `,` tokens -/
+theorem policyToDoc_atoms (iw : Nat) (p : PolicyCst) : docAtoms (policyToDoc iw p) = policyAtomsW false true p := by
+  have heff : docAtoms (leadingDoc p.effect.leading) ++ docAtoms (tokDoc p.effect.noLead Doc.nil) = wtokAtoms p.effect := by
+    rw [docAtoms_leadingDoc, docAtoms_tokDoc _ .nil docAtoms_nil, ← wtokAtoms_noLead]
+  have hrp : ∀ next, docAtoms next = [] → docAtoms (tokDoc p.rp next) = wtokAtoms p.rp := fun next h => docAtoms_tokDoc _ next h
+  have hrp' : docAtoms (tokDoc p.rp (if p.conds.isEmpty then .nil else .hardline)) = wtokAtoms p.rp := by
+    apply hrp; split <;> simp [docAtoms]
+  unfold policyToDoc policyAtomsW
+  simp only [doc_append, docAtoms, hrp', docAtoms_annotsDoc, docAtoms_condsDoc, docAtoms_tokDoc _ .nil docAtoms_nil]
+  split <;>
+    (simp [docAtoms, docAtoms_varDefDoc, docAtoms_droppedCommaDoc, docAtoms_tokDoc _ .space docAtoms_space,
+      docAtoms_tokDoc _ .hardline docAtoms_hardline, docAtoms_tokDoc _ .nil docAtoms_nil, docAtoms_leadingDoc]
+     rw [wtokAtoms_noLead p.effect]; simp)
+
+theorem docAtoms_policiesToDoc (iw : Nat) (ps : List PolicyCst) : docAtoms (policiesToDoc iw ps) = policiesAtomsW false true ps := by
+  induction ps with
+  | nil => simp [policiesToDoc, policiesAtomsW, docAtoms]
+  | cons p ps ih =>
+    cases ps with
+    | nil => simp [policiesToDoc, policiesAtomsW, policyToDoc_atoms]
+    | cons p' ps' => simp [policiesToDoc, policiesAtomsW, docAtoms, policyToDoc_atoms] at ih ⊢; exact ih
+
+theorem itemsAtoms_append (a b : List Item) : itemsAtoms (a ++ b) = itemsAtoms a ++ itemsAtoms b := by
+  induction a with
+  | nil => simp [itemsAtoms]
+  | cons x a ih => cases x <;> simp [itemsAtoms, ih]
+
+theorem itemsAtoms_eofItems (eof : List (List Char)) : itemsAtoms (eofItems eof) = eof.map Atom.com := by
+  induction eof with
+  | nil => simp [eofItems, itemsAtoms]
+  | cons c cs ih => simp [eofItems, itemsAtoms, ih]
+
+theorem itemsAtoms_joinPolicies (xs : List (List Item)) : itemsAtoms (joinPolicies xs) = (xs.map itemsAtoms).flatten := by
+  induction xs with
+  | nil => simp [joinPolicies, itemsAtoms]
+  | cons x xs ih =>
+    cases xs with
+    | nil => simp [joinPolicies]
+    | cons y ys => simp [joinPolicies, itemsAtoms_append, itemsAtoms] at ih ⊢; exact ih
+
+/-! comments kept at the policy level -/
+
+theorem varDef_comments_kept (v : VarDefCst) : commentsOf (varDefAtomsW false true v) = commentsOf (varDefAtomsW true true v) := by
+  obtain ⟨var, isPart, ineq⟩ := v
+  cases isPart <;> cases ineq <;> simp [varDefAtomsW, commentsOf_append, cst_comments_kept]
+
+theorem conds_comments_kept (cs : List CondCst) : commentsOf (condsAtomsW false true cs) = commentsOf (condsAtomsW true true cs) := by
+  induction cs with
+  | nil => simp [condsAtomsW]
+  | cons c cs ih =>
+    obtain ⟨kw, lb, expr, rb⟩ := c
+    cases expr <;> simp [condsAtomsW, condAtomsW, commentsOf_append, cst_comments_kept, ih]
+
+theorem policy_comments_kept (p : PolicyCst) : commentsOf (policyAtomsW false true p) = commentsOf (policyAtomsW true true p) := by
+  simp [policyAtomsW, commentsOf_append, varDef_comments_kept, conds_comments_kept, commentsOf_trailingComma]
+
+theorem policies_comments_kept (ps : List PolicyCst) : commentsOf (policiesAtomsW false true ps) = commentsOf (policiesAtomsW true true ps) := by
+  induction ps with
+  | nil => simp [policiesAtomsW]
+  | cons p ps ih => simp [policiesAtomsW, commentsOf_append, policy_comments_kept, ih]
+
 end Cedar.Fmt
